@@ -328,11 +328,11 @@ package ro
 //@   ensures [closed-drops|C01,C10] atlock(status) != 0 ==> trace(call.NewNotificationComplete(), hook.OnDroppedNotification(ctx, _))
 
 //@ func (*unicastSubjectImpl).SubscribeWithContext
-//@   props C01 C03 C10 C13
-//@   ensures [one-critical-section|C10,C13] count(lock.mu) == 1 && heldat(mu, sub.ANY) && heldat(mu, loop.ANY)
+//@   props C01 C03 C10 C13 C02 C05
+//@   ensures [one-critical-section|C05,C10,C13] count(lock.mu) == 1 && heldat(mu, sub.ANY) && heldat(mu, loop.ANY)
 //@   alias sub=NewSubscriber()
 //@   track call.NewSubscriber NewSubscriber().* loop.*
-//@   ensures [first-subscriber-gets-backlog-then-attached|C01,C10] atlock(status) == 0 && atlock(observer) == nil ==> trace(call.NewSubscriber(destination), loop.L0, sub.Add(_)) && atunlock(observer) == res(call.NewSubscriber) && len(atunlock(values)) == 0
+//@   ensures [first-subscriber-gets-backlog-then-attached|C01,C02,C10] atlock(status) == 0 && atlock(observer) == nil ==> trace(call.NewSubscriber(destination), loop.L0, sub.Add(_)) && atunlock(observer) == res(call.NewSubscriber) && len(atunlock(values)) == 0
 //@   ensures [second-subscriber-rejected|C10] atlock(status) == 0 && atlock(observer) != nil ==> trace(call.NewSubscriber(destination), sub.ErrorWithContext(subscriberCtx, ErrUnicastSubjectConcurrent)) && atunlock(observer) == atlock(observer)
 //@   ensures [late-subscriber-gets-backlog-then-stored-error|C10] atlock(status) == 1 ==> trace(call.NewSubscriber(destination), loop.L0, sub.ErrorWithContext(atlock(err).A, atlock(err).B))
 //@   ensures [late-subscriber-gets-backlog-then-completion|C10] atlock(status) == 2 ==> trace(call.NewSubscriber(destination), loop.L0, sub.CompleteWithContext(subscriberCtx))
